@@ -632,6 +632,9 @@ struct Ctx
   }
 };
 
+// lazily formatted check: the message is only built when the condition fails
+#define VF_CHECK(ctx, cond, ...) do {if (!(cond)) {(ctx).fail(vf::fmt(__VA_ARGS__));}} while (0)
+
 using Body = void (*)(Ctx &);
 
 struct Sub
